@@ -262,7 +262,9 @@ def model(draw, flavour=None, max_blocks=10):
             blk = draw(SF(names))
             gname = '%3s%2d' % (draw(SF(['wel', 'inj', 'src'])), gi + 1)
             typ = draw(SF(['MASS', 'HEAT', 'MASS', 'WATE', 'COM1', 'DELV'] + (['CO2 ', 'DELG', 'RECH'] if au else ['AIR ', 'COM2'])))
-            g = {'block': blk, 'name': gname, 'nseq': None, 'nadd': None, 'nads': None, 'ltab': None, 'type': typ, 'itab': ' ',
+            seqs = [None, None, None]
+            if draw(I(0, 3)) == 0: seqs = [draw(opt(I(1, 99), 2)) for _ in range(3)]       # NSEQ, NADD, NADS (rarely used, all optional)
+            g = {'block': blk, 'name': gname, 'nseq': seqs[0], 'nadd': seqs[1], 'nads': seqs[2], 'ltab': None, 'type': typ, 'itab': ' ',
                  'gx': draw(_memo('pm', lambda: st.one_of(pos(1e-6, 1e6), pos(1e-6, 1e6).map(lambda v: -v)))), 'ex': draw(opt(pos(1e3, 3e6), 2)),
                  'hg': draw(opt(pos(1e-3, 1e3), 3)), 'fg': draw(opt(pos(1e-3, 1e3), 3)), 'time': [], 'rate': [], 'enthalpy': []}
             if typ == 'DELV':
